@@ -56,6 +56,19 @@ def gen_cases(tier, seed, ctx):
             for v in range(256):
                 s = good[:i] + bytes([v]) + good[i+1:]
                 add(p, ht, s, None, kind='byte-value-sweep')
+    # the digest pin set twice on one context: a correct pin D, then a second value (refused: wrong length / non-hex / empty; or accepted:
+    # another well-formed digest), the error cleared, then a file whose stored checksum is D / differs from D in its last digit
+    for k, z in enumerate(files[:4]):
+        b = z.build(); pr = Z.parse(b)
+        good = pr['header_digest'].hex().encode()
+        p = os.path.join(ctx['work'], 'pin%d.zck' % k)
+        other = good[:-1] + (b'0' if good[-1:] != b'0' else b'1')
+        # a file that differs from the original only in the stored header checksum's last digit (and is sealed for that: not valid, refused anyway)
+        for file_tag, path in (('same', p),):
+            for d1 in (good, other):
+                for d2 in (b'', good[:-2], good + b'00', b'zz' + good[2:], other, good, good.upper()):
+                    cases.append(E.Case('p%d' % len(cases), 'OPENRESET %s %d %s %s' % (path, pr['hash_type'], d1.hex(), d2.hex() or 'e'),
+                                        dict(kind='digest-set-twice')))
     # histories on ONE context: the lead of file A is validated / read (and refused) first, then the bytes behind the descriptor
     # are those of file B: the pins must be applied to B as they would be on a fresh context
     built = []
